@@ -27,6 +27,9 @@ type C19Scenario struct {
 	Step     string          `json:"step"` // label of the injected failure (for the tag)
 	DialFail int             `json:"dialFail,omitempty"`
 	Sched    uint64          `json:"sched"`
+	// CancelUs: the caller's context is cancelled (not expired) by another task this many virtual
+	// microseconds after the call started.
+	CancelUs int `json:"cancelUs,omitempty"`
 }
 
 type c19 struct{ cache map[string][]C19Scenario }
@@ -216,6 +219,17 @@ func (p *c19) build(seed uint64, tier string) []C19Scenario {
 					s.Client.Pass = "wrong-password"
 					add(s)
 				}
+				// the caller cancels its context (it does not expire) at some instant after the
+				// connection was made, while every reply of the server is positive
+				for _, us := range []int{150, 400, 800, 1500, 2500} {
+					if tier != "thorough" && (idx+us/50)%3 != 0 {
+						continue
+					}
+					s := base()
+					s.Step = "ctx-cancelled"
+					s.CancelUs = us
+					add(s)
+				}
 				if op == "dial" {
 					// a second DialWithContext on a Client that is still connected (no Close in
 					// between): whatever the Client does about the earlier connection — whose
@@ -280,6 +294,16 @@ func (p *c19) Exec(t *testing.T, scAny any) Outcome {
 			for _, ms := range sc.Msgs {
 				msgs = append(msgs, BuildMsg(ms, BuildOpts{SMIMEKeys: SMIME}))
 			}
+			ctx := context.Background()
+			if sc.CancelUs > 0 {
+				var cancel context.CancelFunc
+				ctx, cancel = context.WithCancel(ctx)
+				canceller := k.Go("canceller", func() {
+					k.Sleep(time.Duration(sc.CancelUs) * time.Microsecond)
+					cancel()
+				})
+				defer k.Join(canceller)
+			}
 			switch sc.Op {
 			case "redial":
 				if err := c.DialWithContext(context.Background()); err != nil {
@@ -291,7 +315,7 @@ func (p *c19) Exec(t *testing.T, scAny any) Outcome {
 					_ = c.Close()
 				}
 			case "dial":
-				call = env.Call("DialWithContext", func() error { return c.DialWithContext(context.Background()) })
+				call = env.Call("DialWithContext", func() error { return c.DialWithContext(ctx) })
 				if call.Err == nil && call.Panic == nil {
 					// not judged: tidy up
 					_ = c.Close()
@@ -301,6 +325,9 @@ func (p *c19) Exec(t *testing.T, scAny any) Outcome {
 					var ms []*mailMsg
 					for _, b := range msgs {
 						ms = append(ms, b.Msg)
+					}
+					if sc.CancelUs > 0 {
+						return c.DialAndSendWithContext(ctx, ms...)
 					}
 					return c.DialAndSend(ms...)
 				})
